@@ -434,8 +434,150 @@ Definition I_overflowing_shr (w : Z) (self : list Z) (rhs : Z) : (list Z * bool)
 Definition I_overflowing_abs (w : Z) (self : list Z) : (list Z * bool) :=
   if (Core.is_negative w self) then (AddSub.I_overflowing_neg w self) else (self, false).
 
-(* ---- src/buint/mod.rs ---- *)
+(* ---- src/buint/mod.rs (macro mod_impl) ---- *)
+Definition U_cast_signed (w : Z) (self : list Z) : list Z :=
+  self.
+
+Definition U_rotate_left (w : Z) (self : list Z) (n : Z) : list Z :=
+  Shift.unchecked_rotate_left w self (Z.modulo n (bits w (length self))).
+
+Definition U_rotate_right (w : Z) (self : list Z) (n : Z) : list Z :=
+  let n := (Z.modulo n (bits w (length self))) in (Shift.unchecked_rotate_left w self (Z.sub (bits w (length self)) n)).
+
+Definition U_unbounded_shl (w : Z) (self : list Z) (rhs : Z) : list Z :=
+  if (Z.leb (bits w (length self)) rhs) then (Core.ZERO (length self)) else (Shift.shl_internal w self rhs).
+
+Definition U_unbounded_shr (w : Z) (self : list Z) (rhs : Z) : list Z :=
+  if (Z.leb (bits w (length self)) rhs) then (Core.ZERO (length self)) else (Shift.shr_pad_internal w false self rhs).
+
+Definition U_pow (dbg : bool) (w : Z) (self : list Z) (exp : Z) : outcome (list Z) :=
+  if dbg then (Pow.U_strict_pow w self exp) else (Ret (Pow.U_wrapping_pow w self exp)).
+
+Definition U_div_euclid (w : Z) (self : list Z) (rhs : list Z) : outcome (list Z) :=
+  Div.U_wrapping_div_euclid w self rhs.
+
+Definition U_rem_euclid (w : Z) (self : list Z) (rhs : list Z) : outcome (list Z) :=
+  Div.U_wrapping_rem_euclid w self rhs.
+
+Definition U_next_power_of_two (dbg : bool) (w : Z) (self : list Z) : outcome (list Z) :=
+  if dbg then (obind (Bits.U_checked_next_power_of_two w self) (fun (r1 : option (list Z)) => (Core.option_expect r1))) else (Bits.U_wrapping_next_power_of_two w self).
+
+Definition U_midpoint (dbg : bool) (w : Z) (self : list Z) (rhs : list Z) : outcome (list Z) :=
+  obind (Shift.U_shr dbg w (Core.bitxor self rhs) 1) (fun (r1 : list Z) => (AddSub.U_add dbg w (Core.bitand self rhs) r1)).
+
+Definition U_ilog2 (w : Z) (self : list Z) : outcome (Z) :=
+  Core.option_expect (Pow.U_checked_ilog2 w self).
+
+Definition U_abs_diff (w : Z) (self : list Z) (other : list Z) : list Z :=
+  if (Core.cmp_lt (Core.ucmp self other)) then (AddSub.U_wrapping_sub w other self) else (AddSub.U_wrapping_sub w self other).
+
+Definition U_next_multiple_of (dbg : bool) (w : Z) (self : list Z) (rhs : list Z) : outcome (list Z) :=
+  obind (Div.U_wrapping_rem w self rhs) (fun (rem : list Z) => (if (Core.is_zero rem) then (Ret self) else (obind (AddSub.U_sub dbg w rhs rem) (fun (r1 : list Z) => (AddSub.U_add dbg w self r1))))).
+
+Definition U_div_floor (w : Z) (self : list Z) (rhs : list Z) : outcome (list Z) :=
+  Div.U_wrapping_div w self rhs.
+
+Definition U_div_ceil (dbg : bool) (w : Z) (self : list Z) (rhs : list Z) : outcome (list Z) :=
+  obind (Div.U_div_rem w self rhs) (fun '((div, rem) : (list Z * list Z)) => (if (Core.is_zero rem) then (Ret div) else (AddSub.U_add dbg w div (Core.ONE (length self))))).
+
 Definition U_unchecked_shr_internal (w : Z) (u : list Z) (rhs : Z) : list Z :=
   Shift.shr_pad_internal w false u rhs.
+
+Definition U_bits (w : Z) (self : list Z) : Z :=
+  Z.sub (bits w (length self)) (Bits.leading_zeros w self).
+
+(* ---- src/bint/mod.rs (macro mod_impl) ---- *)
+Definition I_count_ones (w : Z) (self : list Z) : Z :=
+  Bits.count_ones self.
+
+Definition I_count_zeros (w : Z) (self : list Z) : Z :=
+  Bits.count_zeros w self.
+
+Definition I_leading_zeros (w : Z) (self : list Z) : Z :=
+  Bits.leading_zeros w self.
+
+Definition I_trailing_zeros (w : Z) (self : list Z) : Z :=
+  Bits.trailing_zeros w self.
+
+Definition I_leading_ones (w : Z) (self : list Z) : Z :=
+  Bits.leading_ones w self.
+
+Definition I_trailing_ones (w : Z) (self : list Z) : Z :=
+  Bits.trailing_ones w self.
+
+Definition I_cast_unsigned (w : Z) (self : list Z) : list Z :=
+  self.
+
+Definition I_rotate_left (w : Z) (self : list Z) (n : Z) : list Z :=
+  Shift.rotate_left w self n.
+
+Definition I_rotate_right (w : Z) (self : list Z) (n : Z) : list Z :=
+  Shift.rotate_right w self n.
+
+Definition I_unbounded_shl (w : Z) (self : list Z) (rhs : Z) : list Z :=
+  Shift.U_unbounded_shl w self rhs.
+
+Definition I_unbounded_shr (w : Z) (self : list Z) (rhs : Z) : list Z :=
+  if (Z.leb (bits w (length self)) rhs) then (if (Core.is_negative w self) then (Core.NEG_ONE w (length self)) else (Core.ZERO (length self))) else (let u := (if (Core.is_negative w self) then (Shift.shr_pad_internal w true self rhs) else (Shift.shr_pad_internal w false self rhs)) in u).
+
+Definition I_swap_bytes (w : Z) (self : list Z) : list Z :=
+  Bits.swap_bytes w self.
+
+Definition I_reverse_bits (w : Z) (self : list Z) : list Z :=
+  Bits.reverse_bits w self.
+
+Definition I_unsigned_abs (w : Z) (self : list Z) : list Z :=
+  if (Core.is_negative w self) then (AddSub.I_wrapping_neg w self) else self.
+
+Definition I_pow (dbg : bool) (w : Z) (self : list Z) (exp : Z) : outcome (list Z) :=
+  if dbg then (Pow.I_strict_pow w self exp) else (Ret (Pow.I_wrapping_pow w self exp)).
+
+Definition I_div_euclid (dbg : bool) (w : Z) (self : list Z) (rhs : list Z) : outcome (list Z) :=
+  if (orb (negb (Core.eq_digits self (Core.IMIN w (length self)))) (negb (Core.eq_digits rhs (Core.NEG_ONE w (length self))))) then (Div.I_wrapping_div_euclid dbg w self rhs) else Panic.
+
+Definition I_rem_euclid (dbg : bool) (w : Z) (self : list Z) (rhs : list Z) : outcome (list Z) :=
+  if (orb (negb (Core.eq_digits self (Core.IMIN w (length self)))) (negb (Core.eq_digits rhs (Core.NEG_ONE w (length self))))) then (Div.I_wrapping_rem_euclid dbg w self rhs) else Panic.
+
+Definition I_abs (dbg : bool) (w : Z) (self : list Z) : outcome (list Z) :=
+  if dbg then (AddSub.I_strict_abs w self) else (Ret (match (AddSub.I_checked_abs w self) with Some int => int | None => (Core.IMIN w (length self)) end)).
+
+Definition I_signum (w : Z) (self : list Z) : list Z :=
+  if (Core.is_negative w self) then (Core.NEG_ONE w (length self)) else (if (Core.is_zero self) then (Core.ZERO (length self)) else (Core.ONE (length self))).
+
+Definition I_is_positive (w : Z) (self : list Z) : bool :=
+  let signed_digit := (Core.signed_digit w self) in (orb (Z.ltb 0 signed_digit) (andb (Z.eqb signed_digit 0) (negb (Core.is_zero self)))).
+
+Definition I_is_negative (w : Z) (self : list Z) : bool :=
+  Z.ltb (Core.signed_digit w self) 0.
+
+Definition I_is_power_of_two (w : Z) (self : list Z) : bool :=
+  andb (negb (Core.is_negative w self)) (Bits.U_is_power_of_two self).
+
+Definition I_midpoint (dbg : bool) (w : Z) (self : list Z) (rhs : list Z) : outcome (list Z) :=
+  let x := (Core.bitxor self rhs) in (obind (Shift.I_shr dbg w x 1) (fun (r1 : list Z) => (obind (AddSub.I_add dbg w (Core.bitand self rhs) r1) (fun (t : list Z) => (if (andb (Core.is_negative w t) (Z.eqb (Z.land (hd 0 x) 1) 1)) then (AddSub.I_add dbg w t (Core.ONE (length self))) else (Ret t)))))).
+
+Definition I_abs_diff (w : Z) (self : list Z) (other : list Z) : list Z :=
+  if (Core.cmp_lt (Core.icmp w self other)) then (AddSub.I_wrapping_sub w other self) else (AddSub.I_wrapping_sub w self other).
+
+Definition I_next_multiple_of (dbg : bool) (w : Z) (self : list Z) (rhs : list Z) : outcome (list Z) :=
+  obind (Div.I_wrapping_rem_euclid dbg w self rhs) (fun (rem : list Z) => (if (Core.is_zero rem) then (Ret self) else (if (Bool.eqb (Core.is_negative w rem) (Core.is_negative w rhs)) then (obind (AddSub.I_sub dbg w rhs rem) (fun (r1 : list Z) => (AddSub.I_add dbg w self r1))) else (AddSub.I_sub dbg w self rem)))).
+
+Definition I_div_floor (dbg : bool) (w : Z) (self : list Z) (rhs : list Z) : outcome (list Z) :=
+  if (Core.is_zero rhs) then Panic else (obind (Div.I_div_rem_unchecked dbg w self rhs) (fun '((div, rem) : (list Z * list Z)) => (if (orb (Core.is_zero rem) (Bool.eqb (Core.is_negative w self) (Core.is_negative w rhs))) then (Ret div) else (AddSub.I_sub dbg w div (Core.ONE (length self)))))).
+
+Definition I_div_ceil (dbg : bool) (w : Z) (self : list Z) (rhs : list Z) : outcome (list Z) :=
+  if (Core.is_zero rhs) then Panic else (obind (Div.I_div_rem_unchecked dbg w self rhs) (fun '((div, rem) : (list Z * list Z)) => (if (orb (Core.is_zero rem) (negb (Bool.eqb (Core.is_negative w self) (Core.is_negative w rhs)))) then (Ret div) else (AddSub.I_add dbg w div (Core.ONE (length self)))))).
+
+Definition I_bits (w : Z) (self : list Z) : Z :=
+  Bits.bits_of w self.
+
+Definition I_bit (w : Z) (self : list Z) (b : Z) : outcome (bool) :=
+  Bits.bit w self b.
+
+Definition I_is_zero (w : Z) (self : list Z) : bool :=
+  Core.is_zero self.
+
+Definition I_is_one (w : Z) (self : list Z) : bool :=
+  Core.is_one self.
 
 End Glue.
